@@ -7,10 +7,11 @@
 (* State = the latest descriptor + the client's DERIVED state as           *)
 (* ring/ring.go keeps it:                                                  *)
 (*   desc   r.ringDesc (always the latest descriptor delivered)            *)
-(*   idx    the descriptor the indexes were built from (ringTokens,        *)
-(*          ringTokensByZone, ringInstanceByToken, ringZones, the per-zone *)
-(*          counters, oldestRegisteredTimestamp, readOnlyInstances,        *)
-(*          oldestReadOnlyUpdatedTimestamp): setRingStateFromDesc          *)
+(*   idx    what the indexes hold (ringTokens, ringTokensByZone,           *)
+(*          ringInstanceByToken, ringZones, the per-zone counters,         *)
+(*          oldestRegisteredTimestamp, readOnlyInstances,                  *)
+(*          oldestReadOnlyUpdatedTimestamp): the IndexView of the          *)
+(*          descriptor setRingStateFromDesc last ran on                    *)
 (*   ltc    lastTopologyChange (number of index rebuilds; time stamps of   *)
 (*          different rebuilds are assumed to be different)                *)
 (*   cache  shuffledSubringCache[id,size]                                  *)
@@ -37,7 +38,8 @@ CONSTANTS Inst,       \* instance identifiers, 1..N
           MaxUpd,     \* at most this many updates
           ZoneAware,  \* ring.Config.ZoneAwarenessEnabled
           Addrs, Zones, Toks, Stamps, States, Beats,  \* field domains of the update generator
-          Compute(_, _, _, _, _, _)  \* (ix, lv, id, size, L, W) -> [self, m]: the shard function
+          Compute(_, _, _, _, _, _)  \* (ix, lv, id, size, L, W) -> [self, m]: the shard function of
+                                     \* the indexes ix (an IndexView) and r.ringDesc lv
 
 VARIABLES desc, idx, ltc, cache, lbc, pend, nupd
 
@@ -78,14 +80,15 @@ Classify(old, new) ==
 (* the per-zone counters), the read-only flag (writable counters,          *)
 (* readOnlyInstances), registration and read-only times (the two "oldest"  *)
 (* values).  The address is in no index.                                   *)
-IndexView(ix) == [i \in DOMAIN ix |-> <<ix[i].tok, ix[i].zone, ix[i].ro, ix[i].reg, ix[i].rots>>]
+IndexView(d) == [i \in DOMAIN d |-> [tok |-> d[i].tok, zone |-> d[i].zone, ro |-> d[i].ro,
+                                      reg |-> d[i].reg, rots |-> d[i].rots]]
 
 (* Every query that is not a shard query (Get*, GetAllHealthy,             *)
 (* GetReplicationSetForOperation, GetSubringForOperationStates, the count  *)
 (* getters, Zones, GetTokenRangesForInstance, HasInstance, GetInstance...)  *)
 (* reads only the indexes, r.ringDesc and the clock: its answer is a       *)
 (* function of this input and the query.                                   *)
-DirectInput(ix, lv) == [index |-> IndexView(ix), live |-> lv]
+DirectInput(ix, lv) == [index |-> ix, live |-> lv]
 
 (* ----------------------------------------------------------------------- *)
 (* AbstractShard: Ring.shuffleShard / filterOutReadOnlyInstances           *)
@@ -187,8 +190,8 @@ ClientLb(id, size, L, now) ==
     ELSE Compute(idx, desc, id, size, L, now - L).m
 
 (* What a client freshly built from the latest descriptor answers. *)
-FreshPlain(id, size)      == Compute(desc, desc, id, size, 0, 0).m
-FreshLb(id, size, L, now) == Compute(desc, desc, id, size, L, now - L).m
+FreshPlain(id, size)      == Compute(IndexView(desc), desc, id, size, 0, 0).m
+FreshLb(id, size, L, now) == Compute(IndexView(desc), desc, id, size, L, now - L).m
 
 (* ----------------------------------------------------------------------- *)
 (* Actions                                                                 *)
@@ -199,7 +202,7 @@ EmptyLbc   == [k \in LbKeys |-> None]
 \* the descriptor the client found in the store when it started (Ring.starting)
 InitDescs == {NoDesc}
 
-Init == /\ desc \in InitDescs /\ idx = desc /\ ltc = IF desc = NoDesc THEN 0 ELSE 1
+Init == /\ desc \in InitDescs /\ idx = IndexView(desc) /\ ltc = IF desc = NoDesc THEN 0 ELSE 1
         /\ cache = EmptyCache /\ lbc = EmptyLbc
         /\ pend = [p \in Readers |-> None]
         /\ nupd = 0
@@ -210,13 +213,50 @@ Update(d) ==
     /\ nupd' = nupd + 1
     /\ desc' = d
     /\ IF Classify(desc, d) = "Different"
-       THEN /\ idx' = d /\ ltc' = ltc + 1           \* setRingStateFromDesc
+       THEN /\ idx' = IndexView(d) /\ ltc' = ltc + 1           \* setRingStateFromDesc
             /\ cache' = EmptyCache /\ lbc' = EmptyLbc
        ELSE UNCHANGED <<idx, ltc, cache, lbc>>        \* only r.ringDesc is swapped
     /\ UNCHANGED pend
 
-(* ShuffleShard(id, size), first critical section: cache lookup under the  *)
-(* read lock; on a miss the subring is computed (it remembers ltc).        *)
+(* A computed subring waiting to be offered to the cache. *)
+FillReq(lb, key, m, W) == [lb |-> lb, key |-> key, m |-> m, ltc |-> ltc, W |-> W]
+
+(* setCachedShuffledSubring / setCachedShuffledSubringWithLookback (write  *)
+(* lock): the caches after offering f.  Only if the topology did not       *)
+(* change since f was computed; a look-back entry is replaced only by one  *)
+(* whose window starts later.                                              *)
+CacheAfterFill(f) == IF f.ltc = ltc /\ ~f.lb THEN [cache EXCEPT ![f.key] = Some(f.m)] ELSE cache
+LbcAfterFill(f) ==
+    IF f.ltc = ltc /\ f.lb /\ (lbc[f.key] = None \/ Val(lbc[f.key]).va < f.W)
+    THEN [lbc EXCEPT ![f.key] = Some([m |-> f.m, va |-> f.W, vb |-> ValidBefore(f.m, f.W)])]
+    ELSE lbc
+
+(* ShuffleShard(id, size) served without interference: cache lookup (read  *)
+(* lock; a hit refreshes the cached subring), on a miss compute and offer. *)
+SeqPlain(id, size) ==
+    /\ IF cache[<<id, size>>] # None
+       THEN /\ cache' = [cache EXCEPT ![<<id, size>>] = Some(Refresh(Val(@), desc))]
+            /\ UNCHANGED lbc
+       ELSE LET res == Compute(idx, desc, id, size, 0, 0) IN
+            IF res.self THEN UNCHANGED <<cache, lbc>>       \* "result != r": the ring itself is not cached
+            ELSE LET f == FillReq(FALSE, <<id, size>>, res.m, 0) IN
+                 cache' = CacheAfterFill(f) /\ lbc' = LbcAfterFill(f)
+    /\ UNCHANGED <<desc, idx, ltc, pend, nupd>>
+
+(* ShuffleShardWithLookback(id, size, L, now) served without interference. *)
+SeqLb(id, size, L, now) ==
+    /\ LET W == now - L IN
+       IF LbValid(lbc[<<id, size, L>>], W)
+       THEN /\ lbc' = [lbc EXCEPT ![<<id, size, L>>] = Some([Val(@) EXCEPT !.m = Refresh(@, desc)])]
+            /\ UNCHANGED cache
+       ELSE LET res == Compute(idx, desc, id, size, L, W) IN
+            IF res.self THEN UNCHANGED <<cache, lbc>>
+            ELSE LET f == FillReq(TRUE, <<id, size, L>>, res.m, W) IN
+                 cache' = CacheAfterFill(f) /\ lbc' = LbcAfterFill(f)
+    /\ UNCHANGED <<desc, idx, ltc, pend, nupd>>
+
+(* The same calls by a concurrent reader p: the two critical sections are  *)
+(* separate steps, updates and other readers may run in between.           *)
 QueryPlain(p, id, size) ==
     /\ pend[p] = None
     /\ IF cache[<<id, size>>] # None
@@ -224,8 +264,7 @@ QueryPlain(p, id, size) ==
             /\ UNCHANGED pend
        ELSE LET res == Compute(idx, desc, id, size, 0, 0) IN
             /\ pend' = IF res.self THEN pend
-                       ELSE [pend EXCEPT ![p] = Some([lb |-> FALSE, key |-> <<id, size>>, m |-> res.m,
-                                                     ltc |-> ltc, W |-> 0])]
+                       ELSE [pend EXCEPT ![p] = Some(FillReq(FALSE, <<id, size>>, res.m, 0))]
             /\ UNCHANGED cache
     /\ UNCHANGED <<desc, idx, ltc, lbc, nupd>>
 
@@ -237,25 +276,15 @@ QueryLb(p, id, size, L, now) ==
             /\ UNCHANGED pend
        ELSE LET res == Compute(idx, desc, id, size, L, W) IN
             /\ pend' = IF res.self THEN pend
-                       ELSE [pend EXCEPT ![p] = Some([lb |-> TRUE, key |-> <<id, size, L>>, m |-> res.m,
-                                                     ltc |-> ltc, W |-> W])]
+                       ELSE [pend EXCEPT ![p] = Some(FillReq(TRUE, <<id, size, L>>, res.m, W))]
             /\ UNCHANGED lbc
     /\ UNCHANGED <<desc, idx, ltc, cache, nupd>>
 
-(* Second critical section (write lock): offer the subring to the cache.   *)
-(* Only if the topology did not change in between; a look-back entry is    *)
-(* replaced only by one whose window starts later.                         *)
 Fill(p) ==
     /\ pend[p] # None
     /\ pend' = [pend EXCEPT ![p] = None]
-    /\ LET f == Val(pend[p]) IN
-       IF f.ltc # ltc THEN UNCHANGED <<cache, lbc>>
-       ELSE IF ~f.lb THEN /\ cache' = [cache EXCEPT ![f.key] = Some(f.m)]
-                          /\ UNCHANGED lbc
-       ELSE /\ UNCHANGED cache
-            /\ IF lbc[f.key] = None \/ Val(lbc[f.key]).va < f.W
-               THEN lbc' = [lbc EXCEPT ![f.key] = Some([m |-> f.m, va |-> f.W, vb |-> ValidBefore(f.m, f.W)])]
-               ELSE UNCHANGED lbc
+    /\ cache' = CacheAfterFill(Val(pend[p]))
+    /\ lbc' = LbcAfterFill(Val(pend[p]))
     /\ UNCHANGED <<desc, idx, ltc, nupd>>
 
 (* CleanupShuffleShardCache(id) *)
@@ -291,6 +320,8 @@ AnyUpdate == \/ UpdEqual \/ UpdHeartbeat \/ UpdState \/ UpdBoth \/ UpdToken \/ U
              \/ UpdReg \/ UpdROFlag \/ UpdROTime \/ UpdROBoth \/ UpdAdd \/ UpdRemove \/ UpdMixed
 
 Next == \/ AnyUpdate
+        \/ \E id \in Ident, size \in Sizes : SeqPlain(id, size)
+        \/ \E id \in Ident, size \in Sizes, L \in Lookbacks, now \in Times : SeqLb(id, size, L, now)
         \/ \E p \in Readers, id \in Ident, size \in Sizes : QueryPlain(p, id, size)
         \/ \E p \in Readers, id \in Ident, size \in Sizes, L \in Lookbacks, now \in Times : QueryLb(p, id, size, L, now)
         \/ \E p \in Readers : Fill(p)
@@ -303,11 +334,11 @@ Spec == Init /\ [][Next]_vars
 (* ----------------------------------------------------------------------- *)
 TypeOK == /\ DOMAIN desc \subseteq Inst /\ \A i \in DOMAIN desc : desc[i] \in Rec
           /\ DOMAIN idx \subseteq Inst
-          /\ ltc \in 0..MaxUpd /\ nupd \in 0..MaxUpd
+          /\ ltc \in 0..(MaxUpd + 1) /\ nupd \in 0..MaxUpd
 
 (* Answers that do not go through a subring cache: the client computes them *)
 (* from (indexes, r.ringDesc), a fresh client from (indexes of desc, desc). *)
-DirectUnobservable == DirectInput(idx, desc) = DirectInput(desc, desc)
+DirectUnobservable == DirectInput(idx, desc) = DirectInput(IndexView(desc), desc)
 
 (* Shards, for every query and EVERY query time (also times before the one  *)
 (* a cached entry was filled at).                                          *)
@@ -316,14 +347,26 @@ ShardUnobservable ==
     /\ \A id \in Ident, size \in Sizes, L \in Lookbacks, now \in Times :
            ClientLb(id, size, L, now) = FreshLb(id, size, L, now)
 
-Unobservable == DirectUnobservable /\ ShardUnobservable
+(* The same formula, evaluated faster: when the indexes are those of desc, *)
+(* a cache miss is literally the fresh computation (same operator, same    *)
+(* arguments), so only hits are compared.                                  *)
+ShardUnobservableFast ==
+    \/ /\ idx = IndexView(desc)
+       /\ \A k \in PlainKeys : cache[k] # None => ClientPlain(k[1], k[2]) = FreshPlain(k[1], k[2])
+       /\ \A k \in LbKeys : lbc[k] # None =>
+              \A now \in Times : LbValid(lbc[k], now - k[3]) =>
+                  ClientLb(k[1], k[2], k[3], now) = FreshLb(k[1], k[2], k[3], now)
+    \/ ShardUnobservable
+
+Unobservable     == DirectUnobservable /\ ShardUnobservable
+UnobservableFast == DirectUnobservable /\ ShardUnobservableFast
 
 (* A subring waiting to be cached is either still what a fresh client would *)
 (* compute or it will be refused.                                          *)
 PendingSound == \A p \in Readers : pend[p] # None /\ Val(pend[p]).ltc = ltc =>
                     LET f == Val(pend[p]) IN
-                      Refresh(f.m, desc) = IF f.lb THEN Compute(desc, desc, f.key[1], f.key[2], f.key[3], f.W).m
-                                           ELSE Compute(desc, desc, f.key[1], f.key[2], 0, 0).m
+                      Refresh(f.m, desc) = IF f.lb THEN Compute(IndexView(desc), desc, f.key[1], f.key[2], f.key[3], f.W).m
+                                           ELSE Compute(IndexView(desc), desc, f.key[1], f.key[2], 0, 0).m
 
 (* Non-vacuity witnesses (expected to be VIOLATED when checked as invariants). *)
 NeverStaleHit == ~\E k \in PlainKeys : cache[k] # None /\ Val(cache[k]) # Refresh(Val(cache[k]), desc)
